@@ -331,14 +331,19 @@ pub fn oracle(c: &Case) -> u32 {
 #[derive(Clone)]
 pub struct Tally {
     pub n: [[u64; 2]; NCK],
+    /// checker verdict != brute-force law
+    pub mism: [u64; NCK],
     pub track_all: bool,
 }
 impl Tally {
     pub fn new(track_all: bool) -> Self {
-        Tally { n: [[0; 2]; NCK], track_all }
+        Tally { n: [[0; 2]; NCK], mism: [0; NCK], track_all }
     }
     pub fn fold(&self, acc: &mut Acc, section: &str) {
         for (i, name) in CK_NAMES.iter().enumerate() {
+            if self.mism[i] > 0 {
+                acc.count_n(&format!("{section}/{name}:disagreements_with_law"), self.mism[i]);
+            }
             for v in 0..2 {
                 if self.n[i][v] > 0 {
                     acc.count_n(&format!("{name}:{}", if v == 1 { "accepted" } else { "rejected" }), self.n[i][v]);
@@ -413,6 +418,7 @@ pub fn judge(c: &Case, order: (u64, u64), acc: &mut Acc, tally: &mut Tally) {
         acc.st.nontrivial(&(c.ck as usize, c.n, c.f, if uses_g(c.ck) { c.g } else { [[0; 3]; 3] }, c.zero, c.one, c.b, c.b2));
     }
     if got != want {
+        tally.mism[c.ck as usize] += 1;
         let kind = if c.ck == Ck::SingleProps {
             "wrong-list"
         } else if got == 1 {
@@ -472,7 +478,7 @@ fn single_section(sec: u64, n: usize, threads: usize) -> Acc {
     let name = format!("single/n={n}");
     par_acc(nt, threads, |fi| {
         let mut acc = Acc::new();
-        let mut tally = Tally::new(true);
+        let mut tally = Tally::new(n < 3);
         let f = tab_from(fi, n);
         let zt = [[0u8; 3]; 3];
         let base = Case { ck: Ck::Associativity, n, f, g: zt, zero: 0, one: 0, b: [0; 3], b2: [0; 3] };
@@ -505,18 +511,12 @@ fn single_section(sec: u64, n: usize, threads: usize) -> Acc {
     })
 }
 
-#[derive(Clone, Copy, PartialEq)]
-enum PairMode {
-    /// every checker, every parameter
-    Full,
-    /// only the parameter-free distributivity checkers and semiring(zero, one)
-    DistSemiring,
-    /// every checker; `field` only when g is a commutative table
-    FieldOnCommutativeG,
-}
-
-/// Two-operation checkers on f-tables `fs` x all g-tables of carrier size n.
-fn pair_section(sec: u64, name: &str, n: usize, fs: &[usize], mode: PairMode, track_all: bool, threads: usize) -> Acc {
+/// Two-operation checkers on f-tables `fs` x ALL g-tables of carrier size n. The parameter-free
+/// distributivity checkers and `semiring` (all zero/one) run on every (f, g); `flags[g] & 1` selects
+/// the g for which ring / commutative_ring / integral_domain run (all zero, one, inverse_f) and
+/// `flags[g] & 2` those for which `field` runs (additionally all inverse_g); `flags[g] & 4` = only the
+/// three distributivity checkers for this g.
+fn pair_section(sec: u64, name: &str, n: usize, fs: &[usize], flags: &[u8], track_all: bool, threads: usize) -> Acc {
     let nt = pow(n, n * n);
     let nu = pow(n, n);
     // shard = (f, block of g) so that 16 threads stay busy even for few f
@@ -539,11 +539,13 @@ fn pair_section(sec: u64, name: &str, n: usize, fs: &[usize], mode: PairMode, tr
             for ck in [Ck::LeftDistributes, Ck::RightDistributes, Ck::Distributive] {
                 go(Case { ck, ..base }, &mut acc, &mut tally);
             }
-            let g_comm = o_comm(&g, n);
+            if flags[gi] & 4 != 0 {
+                continue;
+            }
             for zero in 0..n as u8 {
                 for one in 0..n as u8 {
                     go(Case { ck: Ck::Semiring, zero, one, ..base }, &mut acc, &mut tally);
-                    if mode == PairMode::DistSemiring {
+                    if flags[gi] & 1 == 0 {
                         continue;
                     }
                     for bi in 0..nu {
@@ -551,7 +553,7 @@ fn pair_section(sec: u64, name: &str, n: usize, fs: &[usize], mode: PairMode, tr
                         for ck in [Ck::Ring, Ck::CommutativeRing, Ck::IntegralDomain] {
                             go(Case { ck, zero, one, b, ..base }, &mut acc, &mut tally);
                         }
-                        if mode == PairMode::FieldOnCommutativeG && !g_comm {
+                        if flags[gi] & 2 == 0 {
                             continue;
                         }
                         for b2i in 0..nu {
@@ -685,6 +687,7 @@ fn judge_lin(c: &LinCase, order: (u64, u64), track: bool, acc: &mut Acc, tally: 
         acc.st.nontrivial(&("lin", c.ns, c.nr, c.f, c.g, c.q));
     }
     if got != want {
+        tally.mism[Ck::Linearity as usize] += 1;
         let kind = if got { "accepts-when-law-fails" } else { "rejects-when-law-holds" };
         acc.cl.hit(&format!("algebra::linearity/{kind}"), order, || {
             (
@@ -722,6 +725,7 @@ fn judge_bil(c: &BilCase, order: (u64, u64), track: bool, acc: &mut Acc, tally: 
         acc.st.nontrivial(&("bil", c.ns, c.nt, c.nr, c.f, c.h, c.g, c.q));
     }
     if got != want {
+        tally.mism[Ck::Bilinearity as usize] += 1;
         let kind = if got { "accepts-when-law-fails" } else { "rejects-when-law-holds" };
         acc.cl.hit(&format!("algebra::bilinearity/{kind}"), order, || {
             (bil_witness(c), format!("bilinearity returned {} but the law is {want} on {}", if got { "Ok" } else { "Err" }, bil_witness(c)), bil_json(c))
@@ -899,7 +903,10 @@ pub fn run(rep: &mut Report) {
     let mut all = Classes::new();
     let mut counters = std::collections::BTreeMap::<String, u64>::new();
     let mut sec = 0u64;
+    let mut last = std::time::Instant::now();
     let mut fold = |rep: &mut Report, name: &str, acc: Acc, all: &mut Classes, counters: &mut std::collections::BTreeMap<String, u64>| {
+        println!("[vf_coll] C09 section {name}: {} evaluations, {:.1}s", acc.st.evaluations, last.elapsed().as_secs_f64());
+        last = std::time::Instant::now();
         all.merge(acc.cl.clone());
         for (k, v) in &acc.counters {
             *counters.entry(k.clone()).or_insert(0) += v;
@@ -924,22 +931,24 @@ pub fn run(rep: &mut Report) {
 
     // two-operation checkers
     sec += 1;
-    let acc = pair_section(sec, "pair/n=1", 1, &all1, PairMode::Full, true, threads);
+    let acc = pair_section(sec, "pair/n=1", 1, &all1, &[3], true, threads);
     fold(rep, "pair/n=1 (all f x all g, all params)", acc, &mut all, &mut counters);
     sec += 1;
-    let acc = pair_section(sec, "pair/n=2", 2, &all2, PairMode::Full, true, threads);
+    let acc = pair_section(sec, "pair/n=2", 2, &all2, &[3; 16], true, threads);
     fold(rep, "pair/n=2 (all 16x16, all params)", acc, &mut all, &mut counters);
     sec += 1;
     if thorough {
-        let acc = pair_section(sec, "pair/n=3/cm", 3, &cm3, PairMode::Full, false, threads);
-        fold(rep, "pair/n=3 (f in commutative-monoid tables x all g, all zero/one/inverse_f/inverse_g)", acc, &mut all, &mut counters);
+        let flags: Vec<u8> = all3.iter().map(|g| 1 | if o_comm(&tab_from(*g, 3), 3) { 2 } else { 0 }).collect();
+        let acc = pair_section(sec, "pair/n=3/cm", 3, &cm3, &flags, false, threads);
+        fold(rep, "pair/n=3 (f in commutative-monoid tables x all g: dist*, semiring, ring, commutative_ring, integral_domain with all zero/one/inverse_f; field for commutative g with all inverse_g)", acc, &mut all, &mut counters);
         sec += 1;
         let rest: Vec<usize> = all3.iter().cloned().filter(|i| !cm3.contains(i)).collect();
-        let acc = pair_section(sec, "pair/n=3/all", 3, &rest, PairMode::DistSemiring, false, threads);
-        fold(rep, "pair/n=3 (remaining f x all g: distributivity checkers + semiring with all zero/one)", acc, &mut all, &mut counters);
+        let acc = pair_section(sec, "pair/n=3/rest", 3, &rest, &vec![4u8; 19683], false, threads);
+        fold(rep, "pair/n=3 (remaining f x all g: left_distributes, right_distributes, distributive)", acc, &mut all, &mut counters);
     } else {
-        let acc = pair_section(sec, "pair/n=3/cm", 3, &cm3, PairMode::FieldOnCommutativeG, false, threads);
-        fold(rep, "pair/n=3 (f in commutative-monoid tables x all g, all zero/one/inverse_f; field only for commutative g)", acc, &mut all, &mut counters);
+        let flags: Vec<u8> = all3.iter().map(|g| if o_assoc(&tab_from(*g, 3), 3) { 3 } else { 0 }).collect();
+        let acc = pair_section(sec, "pair/n=3/cm", 3, &cm3, &flags, false, threads);
+        fold(rep, "pair/n=3 (f in commutative-monoid tables x all g: dist*, semiring with all zero/one; ring, commutative_ring, integral_domain, field for associative g with all zero/one/inverse_f/inverse_g)", acc, &mut all, &mut counters);
     }
 
     // linearity
@@ -960,7 +969,7 @@ pub fn run(rep: &mut Report) {
         let acc = lin_section(sec, "linearity/S=3,R=3/b", 3, 3, &nonassoc, &assoc3, false, threads);
         fold(rep, "linearity/S=3,R=3 (remaining f x g associative, all q)", acc, &mut all, &mut counters);
     } else {
-        let acc = lin_section(sec, "linearity/S=3,R=3", 3, 3, &assoc3, &assoc3, true, threads);
+        let acc = lin_section(sec, "linearity/S=3,R=3", 3, 3, &assoc3, &assoc3, false, threads);
         fold(rep, "linearity/S=3,R=3 (f, g associative, all q)", acc, &mut all, &mut counters);
     }
     sec += 1;
@@ -1008,8 +1017,9 @@ pub fn run(rep: &mut Report) {
     rep.sections.insert("verdict_counts_per_section".into(), json!(per_section));
 
     let mut st = Stats::new();
-    all.emit(&mut st, &|case| replay_case(case, false));
+    let listed = all.emit(&mut st, "C09", &|case| replay_case(case, false));
     rep.section("violation_classes", st);
+    rep.sections.insert("violation_classes_all".into(), listed);
 }
 
 fn serde_json_map() -> vf_explore::serde_json::Map<String, Value> {
